@@ -210,8 +210,7 @@ def check_case(case: t.Dict[str, t.Any], ctx: Ctx, cuts: t.Optional[t.List[int]]
         else:
             d = msgcheck.first_diff(msgs, an)
             marker = "altered"
-            flat = repr(an)
-            if "!type" in flat:
+            if absval.has_marker(an):
                 marker = "not-self-contained-type"
             out.append(Violation(f"{side}:chunked:{marker}", f"cuts {cuts}: first difference at {d}: sent {msgs!r} got {an!r}"))
     st1, stn = sess.state(s1), sess.state(sn)
